@@ -38,7 +38,66 @@ def flat_add(e):
     return [e]
 
 
+def fold_replies(L, repo):
+    """R1/R2 decided by folding the WHOLE receive path (handle_rx -> verify_req/prepare_req -> [parse_cmd: oracle]
+    -> send_response -> sendto) for scenario datagrams and handler results: number of datagrams sent, their exact
+    text and their destination. Returns True when every scenario folded (then the shape-based fallbacks of R1/R2
+    are not needed), False when the code leaves the evaluator's vocabulary."""
+    ci, fd = repo.need_method("ctrl_if", "CTRLInterface", "handle_rx")
+    fn = "CTRLInterface.handle_rx"
+    PEER = ("10.0.0.1", 5555)
+    scen = [
+        ("CMD POWERON", b"CMD POWERON\0", 0, [b"RSP POWERON 0\0"]),
+        ("CMD POWEROFF answered -1", b"CMD POWEROFF\0", -1, [b"RSP POWEROFF -1\0"]),
+        ("CMD RXTUNE 941600", b"CMD RXTUNE 941600\0", 0, [b"RSP RXTUNE 0 941600\0"]),
+        ("CMD SETSLOT 8 1 answered -1", b"CMD SETSLOT 8 1\0", -1, [b"RSP SETSLOT -1 8 1\0"]),
+        ("CMD MEASURE 941600 with result", b"CMD MEASURE 941600\0", (0, ["-90"]), [b"RSP MEASURE 0 941600 -90\0"]),
+        ("CMD NOMTXPOWER with result", b"CMD NOMTXPOWER\0", (0, ["50"]), [b"RSP NOMTXPOWER 0 50\0"]),
+        ("CMD SETFORMAT 7 answered 1", b"CMD SETFORMAT 7\0", 1, [b"RSP SETFORMAT 1 7\0"]),
+        ("handler raises ValueError", b"CMD RXTUNE abc\0", "raise", "negative"),
+        ("datagram that is not text", b"\xff\xfe\x00", 0, []),
+        ("datagram without the CMD signature", b"XYZ 1\0", 0, []),
+    ]
+    n = 0
+    for title, data, rc, want in scen:
+        sent = []
+
+        def parse(args, rc=rc):
+            if rc == "raise":
+                raise Raised("ValueError")
+            return rc
+        e = Ev(repo, ci.mod, env={"self.rsp_delay_ms": 0}, self_cls=ci)
+        e.hooks = {"self.sock.recvfrom": lambda a, data=data: (data, PEER), "self.parse_cmd": parse,
+                   "self.sock.sendto": lambda a: sent.append(tuple(a)), "time.sleep": lambda a: None}
+        try:
+            e.run_block(fd.body)
+        except Unknown:
+            return False
+        except Raised as ex:
+            sent = "raises %s" % ex.cls
+        got = sent
+        if isinstance(sent, list):
+            got = [x[0] if isinstance(x[0], (bytes, bytearray)) else (x[0].encode() if isinstance(x[0], str) else x[0]) for x in sent]
+            got = [bytes(x) if isinstance(x, bytearray) else x for x in got]
+        n += 1
+        if want == "negative":
+            ok = isinstance(got, list) and len(got) == 1 and isinstance(got[0], bytes) and \
+                re.fullmatch(rb"RSP RXTUNE -\d+ abc\x00", got[0]) is not None
+            L.ob("C05.R1", FC, fn, "%s: exactly one reply, with a negative status and the original arguments" % title,
+                 "RSP RXTUNE -<n> abc\\0", repr(got), ok, fd.lineno)
+        else:
+            L.ob("C05.R1", FC, fn, "%s: datagrams sent in reply (exact text)" % title, repr(want), repr(got), got == want, fd.lineno)
+        if isinstance(sent, list):
+            for x in sent:
+                L.ob("C05.R2", FC, fn, "%s: the reply goes to the sender's address" % title, PEER,
+                     x[1] if len(x) > 1 else None, len(x) > 1 and tuple(x[1]) == PEER, fd.lineno)
+    L.floor("C05.R1", "receive-path scenarios folded", n, 10)
+    return True
+
+
 def r1_one_reply(L, repo):
+    folded = fold_replies(L, repo)
+    L.extra["c05_receive_path_folded"] = bool(folded)
     ci, fd = repo.need_method("ctrl_if", "CTRLInterface", "handle_rx")
     fn = "CTRLInterface.handle_rx"
     L.unit(FC)
@@ -82,6 +141,23 @@ def r1_one_reply(L, repo):
     tup = [a for a in atoms if "tuple" in a and "type(" in a]
     exc = [a for a in atoms if a.startswith("raises: ")]
     other = [a for a in atoms if a not in ver + tup + exc]
+    if folded:
+        # content and destination of the replies are decided by the fold; the table below only counts replies per
+        # branch valuation (complete case analysis), whatever additional conditions the code tests
+        if len(ver) != 1:
+            return DATA, REMOTE
+        decode_x = [x for x in exc if ".decode(" in x]
+        n = 0
+        for vals, evs in sorted(rows.items(), key=lambda kv: repr(kv[0])):
+            a = dict(zip(atoms, vals))
+            sends = [e for e in evs if e[0] == "send"]
+            want = 0 if (any(a[x] for x in decode_x) or not a[ver[0]]) else 1
+            n += 1
+            L.ob("C05.R1", FC, fn, "replies sent when %s" % ", ".join(
+                "%s=%d" % (k[:40], v) for k, v in sorted(a.items())), want, [s_[1] for s_ in sends],
+                len(sends) == want)
+        L.floor("C05.R1", "rows of the receive-path table", n, 4)
+        return DATA, REMOTE
     L.require("C05.R1", FC, fn, "atoms of the receive path (signature test, tuple test, exception oracles)",
               (1, 1, []), (len(ver), len(tup), other))
     if len(ver) != 1 or len(tup) != 1 or other:
@@ -151,19 +227,22 @@ def r2_format(L, repo):
         raise AnalysisError("send_response signature changed")
     _, REQ, REMOTE, CODE, PAR = ps
     cfg = CFG(fd)
+    folded = bool(L.extra.get("c05_receive_path_folded"))
     ins = [c for c in find_calls(fd, attr="insert") if canon(c.func.value) == REQ]
-    L.require("C05.R2", FC, fn, "status inserted right after the verb", ["%s.insert(1, str(%s))" % (REQ, CODE)],
-              [canon(c) for c in ins])
-    for c in ins:
-        L.require("C05.R2", FC, fn, "status insertion is unconditional", [], lit_fmt(guard_literals(cfg, cfg.node_of(c))))
-    app = [n for n in ast.walk(fd) if (isinstance(n, ast.AugAssign) and canon(n.target) == REQ) or
-           (isinstance(n, ast.Call) and canon(n.func) == REQ + ".extend")]
-    L.require("C05.R2", FC, fn, "result parameters appended", 1, len(app))
-    for n in app:
-        val = canon(n.value) if isinstance(n, ast.AugAssign) else canon(n.args[0])
-        lits = guard_literals(cfg, cfg.node_of(n))
-        L.require("C05.R2", FC, fn, "optional results are appended iff given",
-                  (PAR, lit_fmt({("None is " + PAR, False)})), (val, lit_fmt(lits)))
+    if not folded:
+        # shape-based fallback (the reply text is otherwise decided by the fold in R1)
+        L.require("C05.R2", FC, fn, "status inserted right after the verb", ["%s.insert(1, str(%s))" % (REQ, CODE)],
+                  [canon(c) for c in ins])
+        for c in ins:
+            L.require("C05.R2", FC, fn, "status insertion is unconditional", [], lit_fmt(guard_literals(cfg, cfg.node_of(c))))
+        app = [n for n in ast.walk(fd) if (isinstance(n, ast.AugAssign) and canon(n.target) == REQ) or
+               (isinstance(n, ast.Call) and canon(n.func) == REQ + ".extend")]
+        L.require("C05.R2", FC, fn, "result parameters appended", 1, len(app))
+        for n in app:
+            val = canon(n.value) if isinstance(n, ast.AugAssign) else canon(n.args[0])
+            lits = guard_literals(cfg, cfg.node_of(n))
+            L.require("C05.R2", FC, fn, "optional results are appended iff given",
+                      (PAR, lit_fmt({("None is " + PAR, False)})), (val, lit_fmt(lits)))
     sends = [c for c in calls_in(fd) if canon(c.func) in ("self.sendto", "self.sock.sendto")]
     L.require("C05.R2", FC, fn, "number of datagrams sent per response", 1, len(sends))
     subst = deep_subst(fd)
@@ -174,6 +253,8 @@ def r2_format(L, repo):
         L.ob("C05.R2", FC, fn, "the datagram is sent on every path through send_response", "post-dominates entry",
              "skippable" if not cfg.must_pass(cfg.entry, [cfg.node_of(c)]) else "always",
              cfg.must_pass(cfg.entry, [cfg.node_of(c)]), c.lineno)
+        if folded:
+            continue
         payload = c.args[0]
         if isinstance(payload, ast.Name) and payload.id in subst:
             payload = subst[payload.id]
@@ -182,17 +263,18 @@ def r2_format(L, repo):
         # insert precedes join
         L.ob("C05.R2", FC, fn, "status is inserted before the reply text is built", "insert dominates send",
              "", bool(ins) and cfg.dominates(cfg.node_of(ins[0]), cfg.node_of(c)))
-    ci, vr = repo.need_method("ctrl_if", "CTRLInterface", "verify_req")
-    r = [canon(n.value) for n in ast.walk(vr) if isinstance(n, ast.Return)]
-    P = params(vr)[1]
-    L.require("C05.R2", FC, "CTRLInterface.verify_req", "a request is recognised by the CMD signature",
-              ["%s.startswith(%r)" % (P, spec["signature_cmd"])], r)
-    ci, pr = repo.need_method("ctrl_if", "CTRLInterface", "prepare_req")
-    P = params(pr)[1]
-    txt = [canon(s) for s in pr.body if not (isinstance(s, ast.Expr) and isinstance(s.value, ast.Constant))]
-    want = ["request = %s[4:].strip().strip('\\x00')" % P, "request = request.split(' ')", "return request"]
-    L.require("C05.R2", FC, "CTRLInterface.prepare_req", "signature (4 characters), padding and NUL stripped, split on spaces",
-              want, txt)
+    if not folded:
+        ci, vr = repo.need_method("ctrl_if", "CTRLInterface", "verify_req")
+        r = [canon(n.value) for n in ast.walk(vr) if isinstance(n, ast.Return)]
+        P = params(vr)[1]
+        L.require("C05.R2", FC, "CTRLInterface.verify_req", "a request is recognised by the CMD signature",
+                  ["%s.startswith(%r)" % (P, spec["signature_cmd"])], r)
+        ci, pr = repo.need_method("ctrl_if", "CTRLInterface", "prepare_req")
+        P = params(pr)[1]
+        txt = [canon(s) for s in pr.body if not (isinstance(s, ast.Expr) and isinstance(s.value, ast.Constant))]
+        want = ["request = %s[4:].strip().strip('\\x00')" % P, "request = request.split(' ')", "return request"]
+        L.require("C05.R2", FC, "CTRLInterface.prepare_req", "signature (4 characters), padding and NUL stripped, split on spaces",
+                  want, txt)
     ci, vc = repo.need_method("ctrl_if", "CTRLInterface", "verify_cmd")
     ps = params(vc)
     if len(ps) != 5:
@@ -241,6 +323,30 @@ def ret_kind(v):
     return "other:" + canon(v)[:30]
 
 
+def ret_kind_r(v, repo, ci, depth=0):
+    """ret_kind, following `self.helper(...)`: the kind of what the helper returns (join over its returns)"""
+    k = ret_kind(v)
+    if not k.startswith("other:") or depth > 3 or ci is None:
+        return k
+    if isinstance(v, ast.Call) and isinstance(v.func, ast.Attribute) and isinstance(v.func.value, ast.Name) \
+            and v.func.value.id == "self":
+        c2, m2 = repo.find_method(ci, v.func.attr)
+        if m2 is None:
+            return k
+        rets, implicit = returns(CFG(m2))
+        kinds = {ret_kind_r(val, repo, ci, depth + 1) for _, val in rets}
+        if implicit:
+            kinds.add("none")
+        if kinds and kinds <= {"int"}:
+            return "int"
+        if kinds and kinds <= {"int", "tuple"}:
+            return "tuple" if "tuple" in kinds else "int"
+        if kinds and kinds <= {"none"}:
+            return "none"
+        return "mixed:" + ",".join(sorted(kinds))[:40]
+    return k
+
+
 def r3_dispatch_returns(L, repo):
     ci, pc = repo.need_method("ctrl_if_trx", "CTRLInterfaceTRX", "parse_cmd")
     L.unit(FT)
@@ -269,7 +375,7 @@ def r3_dispatch_returns(L, repo):
         if kinds and all(k in ("int", "tuple") for k in kinds):
             intnames.add(nm)
     for node, val in rets:
-        k = ret_kind(val)
+        k = ret_kind_r(val, repo, ci)
         ok = k in ("int", "tuple") or (k.startswith("name:") and k[5:] in intnames)
         L.ob("C05.R3", FT, fn, "return `%s` is a status (int) or (status, results)" % (canon(val) if val else "None"),
              "int | (int, list)", k, ok, node.line)
@@ -296,7 +402,7 @@ def r3_dispatch_returns(L, repo):
     rets2, implicit2 = returns(cfg2)
     L.require("C05.R3", FF, fn2, "paths falling off the end (would be 'unhandled' by accident)", 0, len(implicit2))
     for node, val in rets2:
-        k = ret_kind(val)
+        k = ret_kind_r(val, repo, ci)
         L.ob("C05.R3", FF, fn2, "return `%s` is a status or None (unhandled)" % (canon(val) if val else "None"),
              "int | None", k, k in ("int", "none"), node.line)
     L.floor("C05.R3", "return statements in ctrl_cmd_handler", len(rets2), 10)
